@@ -123,4 +123,32 @@ instance : LawfulCost Int where
   le_total := by intro a b; simp [Cost.le]; omega
   sub_mono := by intro a b s h; simp [Cost.le, Cost.sub] at *; omega
 
+/-- The laws carry over to the repaired cost type (F13): `(broken, score)` compared lexicographically. -/
+instance {S : Type} [Cost S] [LawfulCost S] : LawfulCost (Tainted S) where
+  le_refl := by
+    intro a
+    show ((!a.broken && a.broken) || (a.broken == a.broken && Cost.le a.val a.val)) = true
+    simp [LawfulCost.le_refl]
+  le_trans := by
+    intro a b c h1 h2
+    have h1' : ((!a.broken && b.broken) || (a.broken == b.broken && Cost.le a.val b.val)) = true := h1
+    have h2' : ((!b.broken && c.broken) || (b.broken == c.broken && Cost.le b.val c.val)) = true := h2
+    show ((!a.broken && c.broken) || (a.broken == c.broken && Cost.le a.val c.val)) = true
+    cases ha : a.broken <;> cases hb : b.broken <;> cases hc : c.broken <;>
+      simp [ha, hb, hc] at h1' h2' ⊢
+    all_goals exact LawfulCost.le_trans _ _ _ h1' h2'
+  le_total := by
+    intro a b
+    show ((!a.broken && b.broken) || (a.broken == b.broken && Cost.le a.val b.val)) = true ∨
+      ((!b.broken && a.broken) || (b.broken == a.broken && Cost.le b.val a.val)) = true
+    cases ha : a.broken <;> cases hb : b.broken <;> simp
+    all_goals exact LawfulCost.le_total _ _
+  sub_mono := by
+    intro a b s h
+    have h' : ((!a.broken && b.broken) || (a.broken == b.broken && Cost.le a.val b.val)) = true := h
+    show ((!a.broken && b.broken) ||
+      (a.broken == b.broken && Cost.le (Cost.sub a.val s.val) (Cost.sub b.val s.val))) = true
+    cases ha : a.broken <;> cases hb : b.broken <;> simp [ha, hb] at h' ⊢
+    all_goals exact LawfulCost.sub_mono _ _ _ h'
+
 end Kitoken.Spec
